@@ -23,7 +23,7 @@ class H:
         self.nonterm = nonterm        # an unwinding-assertion failure is itself the finding (termination oracle)
         self.cbmc_args = tuple(cbmc_args)  # extra CBMC options (e.g. field-sensitivity threshold for the 128-byte directory window)
         # peak resident memory of the cbmc process in GB (measured, rounded up); the driver limits concurrency with it
-        self.mem = mem if mem is not None else (9 if "::ops::" in name else 5 if ("::lnb_" in name or "::alias_" in name or "eq_case" in name) else 2)
+        self.mem = mem if mem is not None else (4 if "::ops::" in name else 5 if ("::lnb_" in name or "::alias_" in name or "eq_case" in name) else 2)
 
     def key(self):
         return self.name + "@" + self.build
